@@ -68,7 +68,10 @@ def configs(tier):
                                   return_info=True), 1))
     # the write path (get_filename, makedirs, handler) has about 500
     # scheduling points per execution
-    out.append(("output", dict(n=2, workers=2), mid))
+    out.append(("output", dict(n=2, workers=2, wtype="thread"), mid))
+    # worker processes (map's default when output= is given) share the file
+    # system only: pickled copies of the FileSets per task
+    out.append(("output", dict(n=2, workers=2, wtype="process"), mid))
     # align: two loader pools (primaries, secondaries) next to the main
     # thread that pairs their results through its cache of secondaries
     for rel in ((((0, (0, 1)), (1, (1,)))), ((0, (0,)), (1, (0, 1)))):
@@ -80,7 +83,7 @@ def configs(tier):
                               threads=2, period=None, fault=("B", 1),
                               skip=True, info=True), wide))
     if not q:
-        out.append(("output", dict(n=3, workers=2), 1))
+        out.append(("output", dict(n=3, workers=2, wtype="thread"), 1))
     return out
 
 
@@ -150,7 +153,7 @@ def execute_output(c, fs, files, out, root):
     del cp.READ_LOG[:]
     try:
         r = fs.map(out_func, on_content=True, pass_info=True, output=out,
-                   worker_type="thread", max_workers=c["workers"],
+                   worker_type=c["wtype"], max_workers=c["workers"],
                    start=cp.T0 - cp.H, end=cp.T0 + 30 * cp.H)
         res = ("ok", tuple(r))
     except threads.Deadlock as exc:
@@ -195,8 +198,10 @@ def make_run(kind, c, root):
 
     def run(ctx):
         sched = threads.Scheduler(ctx, lambda fn: fn.startswith(ty))
-        saved = (fsmod.ThreadPoolExecutor, fsmod.gc)
-        fsmod.ThreadPoolExecutor = threads.pool_class(sched)
+        saved = (fsmod.ThreadPoolExecutor, fsmod.ProcessPoolExecutor,
+                 fsmod.gc)
+        fsmod.ThreadPoolExecutor = threads.pool_class(sched, "thread")
+        fsmod.ProcessPoolExecutor = threads.pool_class(sched, "process")
         fsmod.gc = cp.NoGC
         restore = sched.install_waiters((fsmod,))
         fs.info_cache.clear()
@@ -217,7 +222,8 @@ def make_run(kind, c, root):
             sched.stop_tracing()
             sched.close()
             restore()
-            fsmod.ThreadPoolExecutor, fsmod.gc = saved
+            (fsmod.ThreadPoolExecutor, fsmod.ProcessPoolExecutor,
+             fsmod.gc) = saved
         if kind == "ops":
             if obs[0][0] == "exception" and obs[0][1] == "Deadlock":
                 obs = (("deadlock", obs[0][2]),) + obs[1:]
